@@ -75,6 +75,9 @@ func (c36) NewRun(plan *simrt.Source, job *harn.Job) harn.Run {
 		// strategy (batching, parallel stat, buffer growth)
 		r.crowd = []int{16, 31, 32, 33, 64, 65}[plan.Draw(6)]
 		r.longNames = plan.Chance(500)
+		if plan.Chance(120) {
+			r.crowd, r.longNames = 260+plan.Draw(80), false // more entries than a directory is usually read in one go
+		}
 	}
 	name := func() string {
 		if r.crowd > 0 && plan.Chance(500) {
